@@ -447,7 +447,10 @@ def run_job(job: dict) -> JobResult:
                 if sym not in found:
                     found[sym] = (ctx, obs, msg)
             if any(ctx.choices) or len(cfg["seq"]) > 1:
-                res.nontrivial.add(digest((cfg_class(cfg), obs["log"])))
+                # entries logged while the server shuts down are ordered by the task group's set of tasks (hash = address):
+                # the order of that tail is not an observation
+                nq = obs.get("nlog_q", len(obs["log"]))
+                res.nontrivial.add(digest((cfg_class(cfg), obs["log"][:nq], sorted(obs["log"][nq:]))))
 
         stats = explore(lambda ctx, cfg=cfg: run_one(ctx, cfg), bound=cfg["bound"], check=check, max_runs=100000)
         res.transitions += stats["points"]
